@@ -7,15 +7,17 @@ Deductive kernel (pyvc + z3, real source of pymap/parsing/primitives.py, regexes
     header and leaves the rest, the synchronising form {n} takes the first n bytes of the continuation and leaves its
     rest, ~ marks binary, and ParsingInterrupt is raised only while the continuation is still missing -- so the two
     literal spellings denote the same value.
+  IMAPConnection.read_command / _interrupt (contracts/runstate.py): the continuation a {n} literal gets is exactly the
+    announced number of bytes read after one continuation request, and the same line is parsed again with it.
 Bounded (decides the remaining clauses on its scope): parser round trips on the real classes, the assumed regex models
 against the re module, sibling spellings end to end on the real server."""
 from pyvc.prop import Property, Bounded
-from . import wire as W
+from . import wire as W, runstate as RS
 from harness.e2e_spelling import bounded_roundtrips, bounded_spellings
 
 PROPERTY = Property(
     'C18', 'How an argument is spelled does not change what it means',
-    contracts=W.CONTRACTS_C18,
+    contracts=W.CONTRACTS_C18 + RS.CONTRACTS_READ,
     bounded=[Bounded('parse / serialise / parse round trips of the real parsers, with delimiting suffixes',
                      'QuotedString, LiteralString ({n+}, ~{n+}, bare LF), String.build, AString, Atom: every word up to length 3 '
                      '(thorough 4) over alphabets with quote, backslash, CR, LF, NUL, 8-bit, space, brace; Number up to 10^30; '
